@@ -243,7 +243,7 @@ func runC06(env *core.Env) {
 	}
 	evs := []ev{{"T", system.Boolean(true)}, {"F", system.Boolean(false)}, {"E", system.Collection{}}, {"N", system.Integer(5)}, {"M", system.Collection{system.Boolean(true), system.Boolean(false)}},
 		{"T", system.Collection{system.Boolean(true)}}, {"F", system.Collection{system.Boolean(false)}}, {"F", system.Collection{&dtpb.Boolean{Value: false}}}, {"T", system.Collection{&dtpb.Boolean{Value: true}}},
-		{"T", &dtpb.Boolean{Value: true}}, {"F", &dtpb.Boolean{Value: false}}, {"N", &dtpb.HumanName{Family: &dtpb.String{Value: "Z"}}}, {"N", system.String("false")}, {"M", system.Collection{system.Integer(1), system.Integer(2)}}}
+		{"T", &dtpb.Boolean{Value: true}}, {"F", &dtpb.Boolean{Value: false}}, {"N", &dtpb.HumanName{Family: &dtpb.String{Value: "Z"}}}, {"N", system.String("false")}, {"N", &dtpb.Quantity{Code: &dtpb.Code{Value: "mg"}}}, {"N", &dtpb.Decimal{Id: &dtpb.String{Value: "no-value"}}}, {"N", &dtpb.Coding{Code: &dtpb.Code{Value: "c"}}}, {"M", system.Collection{system.Integer(1), system.Integer(2)}}}
 	notTab0 := map[string]string{"T": "F", "F": "T", "E": "E", "N": "F", "M": "ERR"}
 	iifTab0 := map[string]string{"T": "T", "F": "F", "E": "F", "N": "T", "M": "ERR"}
 	for round := 0; round < 2; round++ {
